@@ -51,6 +51,7 @@ import JanetModel.Compile.SeqWhileAll
 import JanetModel.Compile.SeqNoBrkSem
 import JanetModel.Compile.SeqErrTail
 import JanetModel.Compile.SeqErrTailIf
+import JanetModel.Compile.SeqThunk
 namespace JanetModel.Props.C02
 open JanetModel.Emit
 
@@ -759,6 +760,35 @@ example : TF (fun f => f = "error" ∨ f = "tuple") false
   · exact .lit _ trivial
   · exact .call "error" _ _ (by decide) (by decide) (Or.inl rfl) (fun a ha => by
       simp only [List.mem_cons, List.not_mem_nil, or_false] at ha; subst ha; exact .lit _ trivial)
+
+/-- **A closed statement: the funcdef of a parameterless function without captured variables.**  `janetc_fn` pushes a function scope
+    (`pushScope c true …`: fresh allocator, empty constant pool, `bytecode_start` = current code length), compiles the body with
+    `fnBody`, and `janetc_pop_funcdef` cuts the funcdef out of the buffers: code = the buffer from `bytecode_start`, constants = the
+    scope's pool, slot count = the allocator's `max` + 1 (`popFuncdef_fields`, Compile/SeqThunk.lean).  For a non-empty body of
+    forms of `TF G b`, over enclosing scopes that bind nothing (no upvalue capture), with `Lang/Sem.evalSeq` in the EMPTY environment
+    giving `v` / `s'`: for every program whose running funcdef has that code from pc 0, those constants and at least that many
+    registers, the VM started at pc 0 with ANY register contents reaches a configuration whose next step is the return of `v` in the
+    world of `s'`.  All the hypotheses the other theorems carry about the running function (`hK`, `CodeAt`, `PrefL`, frame size) and
+    about the entry state (`EnvS`, `EnvD`, `NR`) are discharged here from what the compiler itself establishes.  The first conjunct
+    is the shape `popFuncdef_fields` needs. -/
+theorem compile_correct_thunk (p : Program) (f0 : Frame) (rest : List Frame) (V : Array Value)
+    (FF : FloatFacts) (G : String → Prop) (b : Bool) (fuel : Nat)
+    (c c5 : CState) (body : List Expr) (hT : ∀ e, e ∈ body → TF G b e) (hne : body ≠ [])
+    (hm : c.map.length = c.buf.length) (hl : c.lim ≤ 240) (hclosed : ∀ x, lk c.scopes x = none)
+    (hc : fnBody (cValue fuel) body (pushScope c true false false false) = some c5)
+    (n : Nat) (cur : Pos) (env' : Env) (s s' : SS) (v : Value)
+    (hsem : evalSeq n cur [] body s = .ok (v, env') s')
+    (hV : PrefA c5.vals V)
+    (hcode : CodeAt (p.defs.getD f0.defIdx default).code 0 (c5.buf.drop c.buf.length))
+    (hP : (c5.pools.headD []).length < 65536)
+    (hK : ∀ i, i < (c5.pools.headD []).length → (p.defs.getD f0.defIdx default).consts.getD i .nil = litOf V ((c5.pools.headD []).getD i .nil))
+    (regs : Array Value) (hregs : (c5.scopes.headD default).ra.max + 1 ≤ regs.size) :
+    (∃ sc5, c5.scopes = sc5 :: c.scopes ∧ sc5.fn = true ∧ sc5.start = c.buf.length ∧ c5.pools = c5.pools.headD [] :: c.pools) ∧
+    ∃ (regs' A : Array Value) (pc' : Nat) (wa : World),
+      Reach p (inj f0 rest { regs := regs, pc := 0, args := #[], w := s.st.world }) (inj f0 rest { regs := regs', pc := pc', args := A, w := wa }) ∧
+      step p (inj f0 rest { regs := regs', pc := pc', args := A, w := wa }) =
+        doReturn p (inj f0 rest { regs := regs', pc := pc', args := #[], w := s'.st.world }) v :=
+  thunk_body_correct p f0 rest V FF G b fuel c c5 body hT hne hm hl hclosed hc n cur env' s s' v hsem hV hcode hP hK regs hregs
 
 /-- **The error outcome of a function body** (and of a form in tail position): `fnBody` (`janetc_fn`'s body loop: every form but the
     last dropped, the last in TAIL position) over forms of the fragment `TF G b`, and `Lang/Sem.evalSeq` of the body is an
